@@ -662,6 +662,37 @@ type c08Case struct {
 	maxOut int64
 }
 
+// c08JBIG2HuffmanText assembles an embedded JBIG2 stream with n 1x1 symbols and
+// a Huffman-coded text region of n instances of the last symbol.
+func c08JBIG2HuffmanText(r *kit.Rand) []byte {
+	n := kit.Pick(r, []int{500, 8000, 48000})
+	syms := make([]*bitmap.Bitmap, n)
+	for i := range syms {
+		syms[i] = bitmap.New(1, 1)
+	}
+	sd := jbig2.EncodeSymbolDictSegment(syms, 0)
+	// (the decoder wants at least one byte of segment data per declared symbol)
+	sd = append(sd, 0xFF, 0xAC)
+	sd = append(sd, make([]byte, n)...)
+	inst := make([]jbig2.SymbolInstance, n)
+	for i := range inst {
+		inst[i] = jbig2.SymbolInstance{SymID: n - 1 - r.Intn(3), T: 1, S: i % 60, Wi: 1, Hi: 1}
+	}
+	tr, err := jbig2.EncodeTextRegionSegmentHuffman(64, 8, 0, 0, inst, syms, 1, false, bitmap.CombOpOR, 1, 0, 0)
+	if err != nil {
+		return nil
+	}
+	var page []byte
+	pi := jbig2.WritePageInfo(nil, 64, 8)
+	page = jbig2.WriteSegmentHeader(page, 0, 48, 1, nil, uint32(len(pi)))
+	page = append(page, pi...)
+	page = jbig2.WriteSegmentHeader(page, 1, 0, 1, nil, uint32(len(sd)))
+	page = append(page, sd...)
+	page = jbig2.WriteSegmentHeader(page, 2, 6, 1, []uint32{1}, uint32(len(tr)))
+	page = append(page, tr...)
+	return page
+}
+
 // c08SequentialScans writes a baseline or extended-sequential JPEG (SOF0 / SOF1)
 // at the marker level whose frame is followed by several complete scans, each
 // listing all components; it returns the intrinsic size of the image.
@@ -972,6 +1003,13 @@ func c08Gen(r *kit.Rand, seeds []c08Seed, quick bool) c08Case {
 			cs.body = b
 			cs.chain = []string{s.filter}
 		}
+	case k < 18 && r.Chance(1, 12):
+		// a Huffman-coded text region over tens of thousands of tiny symbols:
+		// the symbol-ID table has one line per symbol
+		cs.class = "jbig2-huffman-symbol-ids"
+		cs.dict["Filter"] = pdf.Name("JBIG2Decode")
+		cs.body = c08JBIG2HuffmanText(r)
+		cs.chain = []string{"JBIG2Decode"}
 	case k < 18 && r.Chance(1, 5):
 		cs.class = "dct-scan-level"
 		cs.dict["Filter"] = pdf.Name("DCTDecode")
